@@ -106,10 +106,11 @@ class LoopContract:
 
     def havoc_heap(self, eng, st):
         out = []
-        for nm in self._hh:
+        items = self._hh.items() if isinstance(self._hh, dict) else [(nm, None) for nm in self._hh]
+        for nm, fields in items:
             v = st.env.get(nm)
             if isinstance(v, E.Ref):
-                out.append(v.t)
+                out.append((v.t, fields))
         return out
 
 
@@ -146,15 +147,34 @@ class Contract:
         self.lemmas = lemmas or []            # (lemma name, lambda c -> instance) assumed at every exit
 
     # ----- body verification side
-    def ctx(self, eng, st, result=None, ghost=None):
+    def ctx(self, eng, st, result=None, ghost=None, at_exit=False):
         old = None
+        env = st.env
         if st.old:
             old = OldCtx(eng, st.old["heap"], st.old["env"])
-        return Ctx(eng, st, st.env, result=result, ghost=ghost, old=old)
+            if at_exit:
+                # in postconditions a parameter name denotes the ARGUMENT (entry value) unless the contract
+                # declares the parameter as modified in place; locals keep their final values
+                env = dict(st.env)
+                for nm, _ in list(self.params) + list(self.captured):
+                    if not self.modifies.get(nm) and nm in st.old["env"]:
+                        env[nm] = st.old["env"][nm]
+        return Ctx(eng, st, env, result=result, ghost=ghost, old=old)
 
     def bind_params(self, eng, st):
         for name, ty in list(self.params) + list(self.captured):
             st.env[name] = eng.reg.fresh_param(eng, st, name, ty)
+
+    def assume_entry_lemmas(self, eng, st):
+        """lemma instances that only mention the entry state are available throughout the body"""
+        c = self.ctx(eng, st)
+        for nm, f in self.lemmas:
+            try:
+                g = f(c)
+            except Exception:
+                continue      # mentions the result or a local: only available at exits
+            st.assume(g)
+            eng.used_lemmas.add(nm)
 
     def requires_terms(self, eng, st):
         c = self.ctx(eng, st)
@@ -163,7 +183,7 @@ class Contract:
     def ensures_terms(self, eng, st, result):
         if self.result_type is not None and result is not None and not isinstance(result, E.Ref):
             result = eng.coerce(result, self.result_type, st)
-        c = self.ctx(eng, st, result=result.t if (result is not None and not isinstance(result, E.Ref)) else result)
+        c = self.ctx(eng, st, result=result.t if (result is not None and not isinstance(result, E.Ref)) else result, at_exit=True)
         object.__setattr__(c, "_result_val", result)
         for nm, f in self.lemmas:
             st.assume(f(c))
@@ -173,7 +193,7 @@ class Contract:
     def raises_terms(self, eng, st, exc):
         if exc not in self.raises:
             return None
-        c = self.ctx(eng, st)
+        c = self.ctx(eng, st, at_exit=True)
         return [(nm, f(c)) for nm, f in self.raises[exc]]
 
     def loop(self, ordn):
